@@ -121,3 +121,33 @@ Proof.
       destruct (clever_covariates a g1 g0) as [_ ->]. unfold Rdiv. ring. }
     rewrite E in H0. lra.
 Qed.
+
+(* ---- tmle_unit_bounds (translated): the bounded outcome lies in [bound, 1 - bound], is the unit-scale outcome
+   whenever that is already inside, and bounding followed by the back-transformation returns a value in
+   [mini, maxi] that equals y for every y strictly inside the truncation band *)
+Lemma unit_bounds_range y mini maxi b : b <= 1 / 2 ->
+  b <= tmle_unit_bounds_R y mini maxi b <= 1 - b.
+Proof.
+  intros Hb. unfold tmle_unit_bounds_R. cbv zeta.
+  destruct (Rlt_dec ((y - mini) / (maxi - mini)) b) as [H1|H1];
+    match goal with |- context [Rlt_dec ?a ?c] => destruct (Rlt_dec a c) as [H2|H2] end; lra.
+Qed.
+Lemma unit_bounds_id y mini maxi b :
+  b <= (y - mini) / (maxi - mini) -> (y - mini) / (maxi - mini) <= 1 - b ->
+  tmle_unit_bounds_R y mini maxi b = (y - mini) / (maxi - mini).
+Proof.
+  intros H1 H2. unfold tmle_unit_bounds_R. cbv zeta.
+  destruct (Rlt_dec ((y - mini) / (maxi - mini)) b) as [H3|H3]; [lra|].
+  destruct (Rlt_dec (IZR 1 - b) ((y - mini) / (maxi - mini))) as [H4|H4]; [lra|reflexivity].
+Qed.
+Lemma bounds_unbound_roundtrip y mini maxi b : mini < maxi ->
+  b <= (y - mini) / (maxi - mini) -> (y - mini) / (maxi - mini) <= 1 - b ->
+  tmle_unit_unbound_R (tmle_unit_bounds_R y mini maxi b) mini maxi = y.
+Proof.
+  intros Hm H1 H2. rewrite (unit_bounds_id y mini maxi b H1 H2). unfold tmle_unit_unbound_R. field. lra.
+Qed.
+Lemma bounds_unbound_range y mini maxi b : mini <= maxi -> 0 <= b -> b <= 1 / 2 ->
+  mini <= tmle_unit_unbound_R (tmle_unit_bounds_R y mini maxi b) mini maxi <= maxi.
+Proof.
+  intros Hm Hb0 Hb. destruct (unit_bounds_range y mini maxi b Hb) as [A B]. apply unbound_range; lra.
+Qed.
